@@ -1221,7 +1221,7 @@ func (self *LockManager) ProcessRecoverLockData(lock *Lock) {
 		return
 	}
 	currentData := lock.data.currentData
-	if currentData == nil || (self.currentData.commandType != protocol.LOCK_DATA_COMMAND_TYPE_UNSET && currentData.commandType != self.currentData.commandType) {
+	if currentData == nil || self.currentData == nil || (self.currentData.commandType != protocol.LOCK_DATA_COMMAND_TYPE_UNSET && currentData.commandType != self.currentData.commandType) {
 		lock.data.commandDatas = nil
 		if lock.data.ProcessAckClear() {
 			lock.data = nil
@@ -1229,8 +1229,13 @@ func (self *LockManager) ProcessRecoverLockData(lock *Lock) {
 		return
 	}
 	recoverData, recoverValue := lock.data.recoverData, lock.data.recoverValue
+	commandType := currentData.commandType
+	if recoverData != nil && recoverValue == nil {
+		// saved by a PIPELINE (no per-operation recover value): restore the saved value as a whole
+		commandType = protocol.LOCK_DATA_COMMAND_TYPE_SET
+	}
 
-	switch currentData.commandType {
+	switch commandType {
 	case protocol.LOCK_DATA_COMMAND_TYPE_SET:
 		if recoverData == nil {
 			self.currentData = NewLockManagerDataUnsetData(false)
@@ -1277,7 +1282,7 @@ func (self *LockManager) ProcessRecoverLockData(lock *Lock) {
 		} else {
 			posValue := recoverValue.(uint64)
 			indexValue, lenValue := int(uint32(posValue>>32)), int(uint32(posValue))
-			if len(currentData.data) >= indexValue+lenValue {
+			if len(currentData.data) >= indexValue+lenValue && currentData.GetValueOffset() <= indexValue {
 				dataLen, valueOffset := len(currentData.data)-4-lenValue, currentData.GetValueOffset()
 				data := make([]byte, dataLen+4)
 				data[0], data[1], data[2], data[3] = byte(dataLen), byte(dataLen>>8), byte(dataLen>>16), byte(dataLen>>24)
